@@ -60,7 +60,7 @@ pub struct Scn {
 }
 
 const SITES: &[&str] = &[
-    "x", "xy", "text", "textel", "data", "class", "comment", "var", "circle-r", "line-x2", "points", "wh", "style", "id-ref",
+    "x", "xy", "text", "textel", "data", "class", "comment", "var", "circle-r", "line-x2", "points", "wh", "style", "id-ref", "id", "g-id",
 ];
 
 fn fstr(x: f32) -> String {
@@ -96,6 +96,9 @@ fn render_items(items: &[Item], in_template: bool, out: &mut String) {
                     "circle-r" => format!("<circle id=\"{idp}\" cxy=\"0 0\" r=\"{{{{randint(1, 999999)}}}}\"/>"),
                     "line-x2" => format!("<line id=\"{idp}\" xy1=\"0 0\" xy2=\"{B} 5\"/>"),
                     "points" => format!("<polyline id=\"{idp}\" points=\"0 0 {B} 5\"/>"),
+                    // the id itself is computed (elements are registered by id before they are evaluated)
+                    "id" => format!("<rect id=\"{m}_{B}\" xy=\"0 {j}\" wh=\"2\"/>"),
+                    "g-id" => format!("<g id=\"{m}_{B}\"><rect xy=\"0 {j}\" wh=\"2\"/></g>"),
                     _ => format!("<rect xy=\"0 {j}\" wh=\"2\" data-r=\"{m}_{B}\"/>"),
                 };
                 out.push_str(&s);
